@@ -36,6 +36,8 @@ CLAIMS = {
          "floating-point reflexivity for large coordinates is rounding behaviour: measured (it exposed SE2::inverse, repaired)"),
  "C13": ("proof", "Over every ordered field: with assertions enabled a raw-coefficient constructor accepts exactly |norm-1| < eps, with NDEBUG it never rejects; normalize() makes any non-degenerate quaternion valid; rotation() of a valid element is orthonormal with determinant +1 (SO3-family and SO2/SE2); SO2(theta).angle() = theta on the principal range (R). Every constructor/setter/accessor (angle, x-y-theta, roll-pitch-yaw incl. gimbal configurations, angle-axis incl. non-unit axes, t+quaternion, t+SO3, Eigen isometry incl. trace<=0 rotations, quat setter, raw coefficients, normalize) is tied bit-for-bit to the code in BOTH build configurations with norms on both sides of the threshold — the model predicts every accept/reject decision exactly; oracle checks that accessors reproduce the supplied quantities.",
          "cast<float>() needs the single-precision instantiation (in progress); threshold behaviour at 1 ulp is tied by the correspondence only"),
+ "C08": ("proof", "Exact arithmetic, no bound on the history: approxSqrtInv is a cubic contraction of the squared-norm deviation (explicit residual polynomial); compose multiplies squared norms and renormalises iff the deviation exceeds eps, so |norm^2-1| <= eps is an invariant of EVERY finite history of compose/inverse steps (induction over the operation list, proved for SO2 over every ordered field), under which the constructor check never fires - no exception with assertions enabled, deviation bounded independently of the length; a per-step rounding perturbation e moves the bound by |e| only. The floating-point part is tied by lock-step histories: random walks and adversarial repetition of one operation over exp/compose/inverse/between/rplus/+=/*=/lplus/slerp/average, every group, both build configurations, accepted-but-imperfect elements injected to exercise the renormalisation branch; after every step: bit-exact agreement with the model, finite, |norm-1| < eps, no exception.",
+         "that each floating-point operation contributes only a few ulp of drift is measured by the histories, not proved; the history induction is proved for SO2 (the quaternion groups use the same recurrence via sqn(pq) = sqn(p) sqn(q))"),
 }
 
 checks = []
